@@ -44,28 +44,52 @@ def traces_of(ctx, name, r, variants):
         per[c['id']] = per.get(c['id'], 0) + 1
         t['id'] = '%s-%d-%d' % (c['id'], ctx.seed, per[c['id']])
         out.append(t)
-    ctx.log('graph %s: %d blocks, %d edges -> %d behaviours %s (%d/%d call edges)' % (name, len(g.states), len(g.edges), len(out), per, cov, want))
+    ctx.log('graph %s: %d blocks, %d edges -> %d behaviours %s (%d call edges)' % (name, len(g.states), len(g.edges), len(out), per, want))
+    cov = sum(1 for t in out for s in t['steps'] if s['a'].startswith('Call'))
     ctx.cov['graph_edges_covered'] = ctx.cov.get('graph_edges_covered', 0) + cov
     ctx.cov['graph_edges_total'] = ctx.cov.get('graph_edges_total', 0) + want
     ctx.cov.setdefault('blocks_per_config', {}).update(per)
     return out
 
 
+def want_of(t):
+    for s in t['steps']:
+        if s['a'] == 'CallValidateBlock':
+            return s['args'][0]
+    return None
+
+
 def byz_sample(ctx, traces, n_single, n_multi):
-    """Blocks to be proposed by a Byzantine proposer: the untouched block, single malformations first, then pairs."""
+    """Blocks to be proposed by a Byzantine proposer: the untouched block and the other blocks the specification
+    accepts one per system; rejected blocks (single malformations first, then pairs) three per system - the
+    proposer equivocates and sends every honest node another block."""
     pool = [t for t in traces if t['cfg']['config'] in BYZ_CFGS]
     good = [t for t in pool if malformations(t) == 0]
     single = [t for t in pool if malformations(t) == 1]
     multi = [t for t in pool if malformations(t) > 1]
     ctx.rng.shuffle(single)
     ctx.rng.shuffle(multi)
+    chosen = good + single[:n_single] + multi[:n_multi]
     out = []
-    for t in good + single[:n_single] + multi[:n_multi]:
+    pending = {}
+    for t in chosen:
         b = copy.deepcopy(t)
         b['cfg']['mode'] = 'byz'
         b['id'] = 'byz-' + t['id']
-        out.append(b)
-    return out
+        if want_of(t) == 'ok':
+            out.append(b)
+            continue
+        key = t['cfg']['config']
+        if key not in pending:
+            pending[key] = b
+            b['cfg']['bundle'] = []
+            out.append(b)
+        else:
+            c = pending[key]
+            c['cfg']['bundle'].append({'id': b['id'], 'blk': b['init']['blk'], 'want': want_of(t)})
+            if len(c['cfg']['bundle']) == 2:
+                del pending[key]
+    return out, len(chosen)
 
 
 def chain_traces(ctx, quick):
@@ -102,13 +126,21 @@ def run(ctx, replay=None):
 
     with ThreadPoolExecutor(max_workers=2) as ex:
         fs = [ex.submit(check, n) for n in names]
-        engine.build_go(ctx, [DRV])
-        # real chains are checked while TLC is busy
-        chains = chain_traces(ctx, quick)
-        crep = engine.run_driver(ctx, DRV, chains, timeout=1200)
-        engine.collect(ctx, crep, chains, DRV)
-        ctx.log('chains: %s' % crep.get('counters'))
-        san = sanity()
+        try:
+            engine.build_go(ctx, [DRV])
+            # real chains are checked while TLC is busy
+            chains = chain_traces(ctx, quick)
+            crep = engine.run_driver(ctx, DRV, chains, timeout=1200)
+            engine.collect(ctx, crep, chains, DRV)
+            ctx.log('chains: %s' % crep.get('counters'))
+            san = sanity()
+        except BaseException:
+            for f in fs:
+                try:
+                    tlc.cleanup(f.result()[1])
+                except Exception:
+                    pass
+            raise
         results = [f.result() for f in fs]
 
     traces = []
@@ -129,7 +161,7 @@ def run(ctx, replay=None):
     if not quick:
         rcov = tlc.run(SPEC, MOD, 'MC_BlockValidity_q.cfg', workers=4, timeout=900, coverage=True)
         acts = ('TamperField', 'TamperSlot', 'CallValidateBlock', 'CallValidateBasic', 'CallVerifyCommit')
-        vac = [a for a in acts if rcov.coverage.get(a, (0, 0))[0] == 0]
+        vac = [a for a in acts if rcov.coverage.get(a, (0, 0))[1] == 0]   # (distinct, generated): the calls are self-loops
         ctx.cov['action_coverage'] = {a: list(v) for a, v in rcov.coverage.items()}
         if vac:
             ctx.cov['vacuous_actions'] = vac
@@ -137,7 +169,7 @@ def run(ctx, replay=None):
     if not traces:
         raise engine.Inconclusive('no behaviours obtained from TLC')
 
-    byz = byz_sample(ctx, traces, 10 if quick else 90, 6 if quick else 60)
+    byz, n_byz_blocks = byz_sample(ctx, traces, 18 if quick else 88, 9 if quick else 90)
 
     # binding self-test: a corrupted expectation must be rejected by the driver
     probes = []
@@ -166,7 +198,7 @@ def run(ctx, replay=None):
     ctx.log('mbt: %d behaviours, %d checks, counters %s' % (rep['traces'], rep['checks'], rep.get('counters')))
     brep = engine.run_driver(ctx, DRV, byz, timeout=3000)
     engine.collect(ctx, brep, byz, DRV)
-    ctx.log('byz: %d proposals, counters %s' % (brep['traces'], brep.get('counters')))
+    ctx.log('byz: %d blocks in %d systems, counters %s' % (n_byz_blocks, brep['traces'], brep.get('counters')))
 
     ctx.cov['traces_validated_against_impl'] = rep['traces'] + brep['traces'] + crep['traces']
     ctx.cov['evaluations'] = rep['checks'] + brep['checks'] + crep['checks']
@@ -175,7 +207,8 @@ def run(ctx, replay=None):
     ctx.cov['rule'] = ('one behaviour per state of the TLC state graph = one abstract block (distinct by construction); '
                        'non-trivial = carries at least one malformation; each is concretised %d times with different '
                        'concrete wrong values / keys / labels' % variants)
-    ctx.cov['byzantine_proposals'] = brep['traces']
+    ctx.cov['byzantine_proposals'] = n_byz_blocks
+    ctx.cov['byzantine_systems'] = brep['traces']
     ctx.cov['real_chains_checked'] = crep['traces']
     ctx.cov['driver_counters'] = {'mbt': rep.get('counters', {}), 'byz': brep.get('counters', {}), 'chain': crep.get('counters', {})}
     ctx.cov['result_classes_observed'] = (rep.get('extra') or {}).get('result_classes')
